@@ -42,9 +42,58 @@ FORMULAS = [
     "y ~ C(k, levels=lv_k) + T(s, 'b') + np.log(w)",
     "y ~ 0 + s*h + (0 + s | g)",
     "y ~ I(center(x) ** 2):h + standardize(w) + (scale(x) | g:g2)",
+    "y ~ hlp.f(x) + fun(z) + s",
 ]
 MODES = ["error", "warning", "silent"]
 LV_K = [10, 3, 7]
+
+
+class _Helpers:
+    def __init__(self, k):
+        self.k = k
+
+    def f(self, v):
+        return np.asarray(v, dtype=float) * self.k
+
+
+HELPERS = [_Helpers(2.0), _Helpers(3.0)]
+
+
+def fun_a(v):
+    return np.asarray(v, dtype=float) + 1.0
+
+
+def fun_b(v):
+    return np.asarray(v, dtype=float) - 1.0
+
+
+def make_ns(frame_key):
+    """The namespace handed to design_matrices: the SAME names are bound to different objects
+    depending on the frame the design is built on."""
+    j = int(frame_key[-1]) % 2
+    return {"lv_k": list(LV_K), "hlp": HELPERS[j], "fun": (fun_a, fun_b)[j]}
+
+
+def used_columns(f, columns):
+    from fmon.ref import grammar as G
+
+    return [c for c in columns if c in G.used_names(G.parse(FORMULAS[f]))]
+
+
+def get_frame(frames, key):
+    """'d2' -> pool frame 2;  't4_1' -> frame 1 restricted to the columns formula 4 uses, with a
+    missing value in a used numeric column (the formula then uses EVERY column of the frame)."""
+    if key in frames:
+        return frames[key]
+    f, d = (int(x) for x in key[1:].split("_"))
+    base = frames["d%d" % d]
+    cols = used_columns(f, list(base.columns))
+    t = base[cols].copy()
+    num = [c for c in ("x", "z", "w") if c in cols]
+    if num:
+        t.loc[t.index[1], num[0]] = np.nan
+    frames[key] = t
+    return t
 
 
 def spec(tier):
@@ -168,7 +217,7 @@ MODEL_CACHE = {}
 
 
 def model_result(kind, f, d_train, mode, d_new, frames):
-    """kind in B / EC / EG.  Returns digest or ('raise', class)."""
+    """kind in B / EC / EG; d_train / d_new are frame keys.  Returns digest or ('raise', class)."""
     key = (kind, f, d_train, mode if kind != "B" else None, d_new)
     if key in MODEL_CACHE:
         return MODEL_CACHE[key]
@@ -176,7 +225,7 @@ def model_result(kind, f, d_train, mode, d_new, frames):
     with fresh_formulae() as F:
         try:
             F.config["EVAL_UNSEEN_CATEGORIES"] = mode
-            dm = F.design_matrices(FORMULAS[f], frames[d_train].copy(), extra_namespace={"lv_k": list(LV_K)})
+            dm = F.design_matrices(FORMULAS[f], get_frame(frames, d_train).copy(), extra_namespace=make_ns(d_train))
             if kind == "B":
                 res = design_digest(dm)
             else:
@@ -184,7 +233,7 @@ def model_result(kind, f, d_train, mode, d_new, frames):
                 if part is None:
                     res = "no-such-part"
                 else:
-                    res = matrix_digest(part.evaluate_new_data(frames[d_new].copy()))
+                    res = matrix_digest(part.evaluate_new_data(get_frame(frames, d_new).copy()))
         except Exception as e:
             res = ("raise", type(e).__name__)
     MODEL_CACHE[key] = res
@@ -241,12 +290,11 @@ class Runner:
 
         self.F = formulae
         self.m = m
-        self.frames = [f.copy() for f in frames]
-        self.frame_ids = [id(f) for f in self.frames]
-        self.frame_dig = [frame_digest(f) for f in self.frames]
-        self.ns = {"lv_k": list(LV_K)}
-        self.ns_items = {k: id(v) for k, v in self.ns.items()}
-        self.ns_repr = repr(self.ns)
+        self.frames = {"d%d" % j: f.copy() for j, f in enumerate(frames)}
+        self.pristine = {"d%d" % j: f.copy() for j, f in enumerate(frames)}  # for the model only
+        self.frame_ids = {}
+        self.frame_dig = {}
+        self.nss = {}
         self.designs = []  # (f, d, dm | None, digest)
         self.results = []  # (obj, digest)
         self.mode = "error"
@@ -255,9 +303,10 @@ class Runner:
 
     def _exec(self, op):
         kind = op[0]
-        if kind == "B":
-            _, f, d = op
-            dm = self.F.design_matrices(FORMULAS[f], self.frames[d], extra_namespace=self.ns)
+        if kind in ("B", "BT"):
+            key = self.key(op)
+            ns = self.namespace(key)
+            dm = self.F.design_matrices(FORMULAS[op[1]], self.frame(key), extra_namespace=ns)
             return dm
         if kind in ("EC", "EG"):
             _, k, d = op
@@ -265,20 +314,36 @@ class Runner:
             part = dm.common if kind == "EC" else dm.group
             if part is None:
                 return "no-such-part"
-            return part.evaluate_new_data(self.frames[d])
+            return part.evaluate_new_data(self.frame("d%d" % d))
         if kind == "SC":
             self.F.config["EVAL_UNSEEN_CATEGORIES"] = op[1]
             self.mode = op[1]
             return None
         raise ValueError(kind)
 
+    def key(self, op):
+        return ("d%d" % op[2]) if op[0] == "B" else ("t%d_%d" % (op[1], op[2]))
+
+    def frame(self, key):
+        fr = get_frame(self.frames, key)
+        if key not in self.frame_ids:
+            self.frame_ids[key] = id(fr)
+            self.frame_dig[key] = frame_digest(fr)
+        return fr
+
+    def namespace(self, key):
+        if key not in self.nss:
+            ns = make_ns(key)
+            self.nss[key] = (ns, {k: id(v) for k, v in ns.items()}, repr(sorted(ns)))
+        return self.nss[key][0]
+
     def expected(self, op):
         kind = op[0]
-        if kind == "B":
-            return model_result("B", op[1], op[2], "error", None, self.frames)
+        if kind in ("B", "BT"):
+            return model_result("B", op[1], self.key(op), "error", None, self.pristine)
         if kind in ("EC", "EG"):
             f, dtrain, dm, _ = self.designs[op[1]]
-            return model_result(kind, f, dtrain, self.mode, op[2], self.frames)
+            return model_result(kind, f, dtrain, self.mode, "d%d" % op[2], self.pristine)
         return None
 
     def applicable(self, op):
@@ -309,7 +374,7 @@ class Runner:
             # now the retried operation must behave as in fresh state (falls through)
         try:
             res = self._exec(op)
-            if op[0] == "B":
+            if op[0] in ("B", "BT"):
                 got = design_digest(res)
             elif op[0] == "SC":
                 got = None
@@ -317,8 +382,8 @@ class Runner:
                 got = res if isinstance(res, str) else matrix_digest(res)
         except Exception as e:
             res, got = None, ("raise", type(e).__name__)
-        if op[0] == "B":
-            self.designs.append((op[1], op[2], res, got if res is not None else None))
+        if op[0] in ("B", "BT"):
+            self.designs.append((op[1], self.key(op), res, got if res is not None else None))
         elif op[0] in ("EC", "EG") and res is not None and not isinstance(res, str):
             self.results.append((res, got))
         if op[0] != "SC":
@@ -331,10 +396,11 @@ class Runner:
         # caller namespace
         m.ev("caller-namespace-untouched")
         now = {k: id(v) for k, v in gl.items()}
-        if now != gkeys or {k: id(v) for k, v in self.ns.items()} != self.ns_items or repr(self.ns) != self.ns_repr:
+        ns_changed = any({k: id(v) for k, v in ns.items()} != ids or repr(sorted(ns)) != rp
+                         for ns, ids, rp in self.nss.values())
+        if now != gkeys or ns_changed:
             m.violation("caller-namespace-untouched", f"namespace changed by {op}", case=case, key="namespace-changed")
-            self.ns_items = {k: id(v) for k, v in self.ns.items()}
-            self.ns_repr = repr(self.ns)
+            self.nss = {k: (ns, {a: id(b) for a, b in ns.items()}, repr(sorted(ns))) for k, (ns, _i, _r) in self.nss.items()}
         # aliasing: scribble into the fresh result, nothing else may change
         if op[0] in ("EC", "EG") and res is not None and not isinstance(res, str):
             m.ev("no-aliasing")
@@ -361,9 +427,10 @@ class Runner:
                             f"earlier result #{j} changed", case=case, key=prefix + "earlier-result-changed")
                 self.results[j] = (obj, matrix_digest(obj))
         m.ev("caller-frame-untouched")
-        for j, fr in enumerate(self.frames):
-            if id(fr) != self.frame_ids[j] or frame_digest(fr) != self.frame_dig[j]:
-                m.violation("caller-frame-untouched", f"caller's frame {j} changed", case=case, key=prefix + "frame-changed")
+        for j, fr in self.frames.items():
+            if j in self.frame_ids and (id(fr) != self.frame_ids[j] or frame_digest(fr) != self.frame_dig[j]):
+                m.violation("caller-frame-untouched", f"caller's frame {j} changed (rows {len(fr)})", case=case,
+                            key=prefix + "frame-changed")
                 self.frame_dig[j] = frame_digest(fr)
 
 
@@ -395,6 +462,7 @@ def run_history(history, frames, m, faults=None):
 # ---------------------------------------------------------------------------------------------
 def ops_after(ndesigns, nf, nd):
     ops = [("B", f, d) for f in range(nf) for d in range(nd)]
+    ops += [("BT", f, 0) for f in range(nf)]
     for k in range(ndesigns):
         ops += [("EC", k, d) for d in range(nd)] + [("EG", k, d) for d in range(nd)]
     ops += [("SC", md) for md in MODES]
@@ -407,22 +475,22 @@ def enum_histories(maxlen, nf, nd):
         if len(prefix) == maxlen:
             return
         for op in ops_after(nb, nf, nd):
-            yield from rec(prefix + [op], nb + (op[0] == "B"))
+            yield from rec(prefix + [op], nb + (op[0] in ("B", "BT")))
 
     for f in range(nf):
         for d in range(nd):
             yield from rec([("B", f, d)], 1)
 
 
-QUICK_F = [0, 2, 3, 5]  # indices into FORMULAS used by the exhaustive part
+QUICK_F = [0, 2, 5, 6]  # indices into FORMULAS used by the exhaustive part
 QUICK_D = [0, 2, 3]
 
 
 def remap(h):
     out = []
     for op in h:
-        if op[0] == "B":
-            out.append(["B", QUICK_F[op[1]], QUICK_D[op[2]]])
+        if op[0] in ("B", "BT"):
+            out.append([op[0], QUICK_F[op[1]], QUICK_D[op[2]]])
         elif op[0] in ("EC", "EG"):
             out.append([op[0], op[1], QUICK_D[op[2]]])
         else:
@@ -437,7 +505,7 @@ def random_history(rng, nf, nd):
     for _ in range(L - 1):
         r = rng.random()
         if r < 0.25:
-            h.append(["B", rng.randrange(nf), rng.randrange(nd)]); nb += 1
+            h.append([rng.choice(["B", "B", "BT"]), rng.randrange(nf), rng.randrange(nd)]); nb += 1
         elif r < 0.6:
             h.append(["EC", rng.randrange(nb), rng.randrange(nd)])
         elif r < 0.85:
@@ -500,13 +568,14 @@ def run_shard(i, n, tier, seed, m):
 def digest_history(hist, frames):
     import formulae
 
-    frames = [f.copy() for f in frames]
+    frames = {"d%d" % j: f.copy() for j, f in enumerate(frames)}
     formulae.config["EVAL_UNSEEN_CATEGORIES"] = "error"
     out, designs = [], []
     for op in hist:
         try:
-            if op[0] == "B":
-                dm = formulae.design_matrices(FORMULAS[op[1]], frames[op[2]], extra_namespace={"lv_k": list(LV_K)})
+            if op[0] in ("B", "BT"):
+                key = ("d%d" % op[2]) if op[0] == "B" else ("t%d_%d" % (op[1], op[2]))
+                dm = formulae.design_matrices(FORMULAS[op[1]], get_frame(frames, key), extra_namespace=make_ns(key))
                 designs.append(dm)
                 out.append(design_digest(dm))
             elif op[0] == "SC":
@@ -518,9 +587,9 @@ def digest_history(hist, frames):
                     continue
                 dm = designs[op[1]]
                 part = dm.common if op[0] == "EC" else dm.group
-                out.append("none" if part is None else matrix_digest(part.evaluate_new_data(frames[op[2]])))
+                out.append("none" if part is None else matrix_digest(part.evaluate_new_data(frames["d%d" % op[2]])))
         except Exception as e:
-            if op[0] == "B":
+            if op[0] in ("B", "BT"):
                 designs.append(None)
             out.append("raise:" + type(e).__name__)
     formulae.config["EVAL_UNSEEN_CATEGORIES"] = "error"
